@@ -53,6 +53,7 @@ def run(ch: Checker) -> None:
                      'only under verify_mode == CERT_NONE, otherwise `hostname is not None`; wrap_socket(server_hostname=<hostname param>)', 4)
     ch.rule('C11.3', 'sites that assign CERT_NONE / check_hostname False-capable values / create a bare SSLContext or an unverified context are exactly the frozen table', 5)
     ch.rule('C11.4', 'wrap_server returns True from every ssl error handler; intercept() returns before wrap_client when wrap_server failed; on_request_complete returns intercept()\'s result', 3)
+    ch.rule('C11.12', 'the CONNECT host names the generated leaf through subjectAltName only: the subject handed to gen_public_key does not depend on request.host (commonName is capped at 64 characters, host names are not)', 1)
     ch.rule('C11.5', 'leaf generation: alt_subj_names = [text_(request.host)] reaches gen_public_key and sign_csr; sign_csr gets flags.ca_key_file / flags.ca_cert_file and puts them at -CAkey / -CA, '
                      'the extension file at -extfile; the cached-certificate test and the generation both happen inside `with self.lock`; client.wrap gets the generated path and the signing key', 5)
     ch.rule('C11.6', 'get_ext_config emits IP:<addr> when the name parses as an IP address and DNS:<name> otherwise', 1)
@@ -221,6 +222,8 @@ def run(ch: Checker) -> None:
     gen = prog.own_method('HttpProxyPlugin', 'gen_ca_signed_certificate')
     gg = cfg_of(gen, prog, exc_edges=False)
     bad = None
+    bad12 = None
+    n12 = 0
     seen_pub = seen_sign = 0
     for p in fpaths(gg, limit=50000):
         ch.paths += 1
@@ -236,6 +239,14 @@ def run(ch: Checker) -> None:
                         bad = ('%s is given alt_subj_names=%s: the generated certificate does not name the host the client asked for' % (attr_chain(c.func), at[:60]), p.describe(12))
                     if attr_chain(c.func) == 'gen_public_key':
                         seen_pub += 1
+                        # C11.12: the subject does not depend on the CONNECT host
+                        sj = _kw(c, 'subject')
+                        if sj is not None:
+                            n12 += 1
+                            sv = Sym(p, item_stores=True).value(sj, i)
+                            if any(isinstance(x, ast.Attribute) and x.attr == 'host' and attr_chain(x) in ('self.request.host', 'request.host') for x in ast.walk(sv)):
+                                bad12 = ('the subject of the generated leaf (%s) is built from the CONNECT host: a commonName holds at most 64 characters while host names run to 253, so '
+                                         'certificate generation fails for long names that are perfectly valid -- the host belongs in subjectAltName, the subject comes from the upstream certificate' % norm(sv)[:90], p.describe(14))
                     else:
                         seen_sign += 1
                         for kw, want in (('ca_key_path', 'self.flags.ca_key_file'), ('ca_crt_path', 'self.flags.ca_cert_file'), ('crt_path', 'cert_file_path')):
@@ -243,6 +254,8 @@ def run(ch: Checker) -> None:
                             vt = norm(sym.value(v, i)) if v is not None else 'missing'
                             if vt != want:
                                 bad = ('sign_csr(%s=%s), expected %s: the leaf is not signed by / written for the configured CA and path' % (kw, vt[:50], want), p.describe(12))
+    ch.check(bad12 is None and n12 > 0, 'C11.12', gen, 'subject independent of the CONNECT host', 'the subject handed to gen_public_key is built from the upstream certificate only (%d path(s))' % n12,
+             bad12[0] if bad12 else 'no subject argument found', witness=bad12[1] if bad12 else None)
     ch.check(bad is None and seen_pub > 0 and seen_sign > 0, 'C11.5', gen, 'SAN and CA dataflow', 'host name and CA files reach gen_public_key / sign_csr unchanged',
              bad[0] if bad else 'generation calls not found', witness=bad[1] if bad else None)
     sc = prog.function('proxy.common.pki', 'sign_csr')
